@@ -42,6 +42,49 @@ Theorem C13_old_scalar_parametric_refuted :
 Proof. exact f13f_old_refuted. Qed.
 Print Assumptions C13_old_scalar_parametric_refuted.
 
+(* The reader before handoff/C13-fix2-1..3.diff (definitions ending in _head): "only the element
+   that could not be mapped is left out" was false for attributes naming several variables.
+   Each witness also shows what the repaired model returns for the same input. *)
+Theorem C13_head_measures_all_or_nothing : forall ds field s k n cs ms,
+  In (k, [n]) (parse_x s) -> internal ds n = false -> mem n (externals ds) = false ->
+  measure_pass_head ds field s = ROk (cs, ms) ->
+  cs = [] /\ In (n, WMeasure, RMissingExt) ms.
+Proof. exact measures_all_or_nothing_head. Qed.
+Print Assumptions C13_head_measures_all_or_nothing.
+
+Theorem C13_head_measures_sibling_refuted :
+  measure_pass_head ds_two_measures "q" "area: area volume: vol" =
+    ROk ([mkCons CMeasure "area" None; mkCons CMeasure "vol" None], []) /\
+  measure_pass_head ds_two_measures "q" "area: nope_missing volume: vol" =
+    ROk ([], [("nope_missing", WMeasure, RMissingExt)]) /\
+  measure_pass ds_two_measures "q" "area: nope_missing volume: vol" =
+    ROk ([mkCons CMeasure "vol" None], [("nope_missing", WMeasure, RMissingExt)]).
+Proof. exact measures_sibling_head_refuted. Qed.
+Print Assumptions C13_head_measures_sibling_refuted.
+
+Theorem C13_head_ancillaries_sibling_refuted :
+  anc_pass_head ds_two_measures "q" "area vol" =
+    ROk ([mkCons CFieldAnc "area" None; mkCons CFieldAnc "vol" None], []) /\
+  anc_pass_head ds_two_measures "q" "nope_missing vol" = ROk ([], [("nope_missing", WAnc, RMissing)]) /\
+  anc_pass ds_two_measures "q" "nope_missing vol" =
+    ROk ([mkCons CFieldAnc "vol" None], [("nope_missing", WAnc, RMissing)]).
+Proof. exact ancillaries_sibling_head_refuted. Qed.
+Print Assumptions C13_head_ancillaries_sibling_refuted.
+
+Theorem C13_head_formula_terms_sibling_refuted :
+  ft_ancillaries_head ds_ft ["z"; "x"] [] [("a", Some "a"); ("b", Some "other"); ("orog", Some "orog")] =
+    ROk ([mkCons CDomAnc "a" None; mkCons CDomAnc "orog" None], false, [("other", WFt, RDims)]) /\
+  ft_ancillaries ds_ft ["z"; "x"] [] [("a", Some "a"); ("b", Some "other"); ("orog", Some "orog")] =
+    ROk ([mkCons CDomAnc "a" None; mkCons CDomAnc "orog" None],
+         [("a", Some "a"); ("b", None); ("orog", Some "orog")], [("other", WFt, RDims)]) /\
+  option_map (fun f => (f_cons f, f_crefs f)) (field_of (read_skel_old ds_ft) "ta") =
+    Some ([mkCons CDim "z" None; mkCons CDim "x" None], []) /\
+  option_map (fun f => (f_cons f, f_crefs f)) (field_of (read_skel ds_ft) "ta") =
+    Some ([mkCons CDim "z" None; mkCons CDim "x" None; mkCons CDomAnc "a" None; mkCons CDomAnc "orog" None],
+          [mkCref None (Some ["z"]) [("a", Some "a"); ("b", None); ("orog", Some "orog")]]).
+Proof. exact formula_terms_sibling_head_refuted. Qed.
+Print Assumptions C13_head_formula_terms_sibling_refuted.
+
 (* file_close only on the success path: a read that raises leaves the dataset open *)
 Theorem C13_old_left_open_refuted :
   exists steps e, count_ev (is_close 0%nat) (read_trace_old steps e) <>
